@@ -135,6 +135,22 @@ def rule_components_from_metric(repo, rep):
   if not found:
     rep.refuted(R2, '_util._check_sdp_from_eigen', site(g),
                 'no path raises NonPSDError for a negative spectrum')
+  # the default tolerance replaces only tol=None (tol=0 is a valid request)
+  Rt0 = 'R-GUARD:default-tolerance-only-for-None'
+  rep.rule(Rt0, 'the default tolerance is substituted only under '
+           '`tol is None`: an explicit tol (including 0) is used as given')
+  for key in ('_util._check_sdp_from_eigen', '_util._pseudo_inverse_from_eig'):
+    h = repo.get_func(key)
+    for n_ in ast.walk(h.node):
+      if isinstance(n_, ast.Assign) and \
+              ast.unparse(n_.targets[0]) == 'tol':
+        conds = astutil.path_condition(h.node, n_)
+        if conds == ['tol is None']:
+          rep.derived(Rt0, key, site(h, n_))
+        else:
+          rep.refuted(Rt0, key, site(h, n_), 'tol is replaced by the '
+                      'default under %s: an explicit tol=0 is not honoured'
+                      % conds)
   rep.floor('components_from_metric return paths', n, 3)
 
 
